@@ -387,9 +387,10 @@ def to_vector(c):
         return c
     if hasattr(c, vector):
         labels = list(c[vector].values)
-        if labels != ['x', 'y', 'z'] and set(labels) == {'x', 'y', 'z'}:
+        if labels != ['x', 'y', 'z'][:len(labels)] and set(labels) in (
+                {'x', 'y', 'z'}, {'x', 'y'}):
             # the theories read the components by position
-            c = c.sel({vector: ['x', 'y', 'z']})
+            c = c.sel({vector: ['x', 'y', 'z'][:len(labels)]})
         # already labelled: only make sure it has unit length
         norm = c.reduce(np.hypot.reduce, dim=vector)
         if np.all(norm.values == 1):
